@@ -37,6 +37,7 @@ def shards(tier, seed):
     L = 4 if tier == 'quick' else 5
     parts = 6 if tier == 'quick' else 48
     out += [dict(kind='d2', part=i, parts=parts, L=L) for i in range(parts)]
+    out.append(dict(kind='symbols'))
     out += [dict(kind='d3', shard=i, n=300 if tier == 'quick' else 4000) for i in range(2)]
     if tier == 'thorough':
         out += [dict(kind='fuzz', shard=i) for i in range(4)]
@@ -63,6 +64,16 @@ def run_shard(shard, tier, seed):
                 if idx % shard['parts'] == shard['part']:
                     cases.append({'text': ''.join(TOKENS[i] for i in seq)})
                 idx += 1
+        return direct_run(ID, cases, check_case)
+    if k == 'symbols':
+        # every element symbol in every letter case, as bracket atom and (where the grammar has one) as bare atom
+        from chython.periodictable import Element
+        cases = []
+        for z in range(1, 119):
+            sym = Element.from_atomic_number(z).__name__
+            for v in {sym, sym.lower(), sym.upper(), sym.swapcase()}:
+                for t in (f'[{v}]', f'C[{v}+]', f'[{v}H]C', f'C{v}', f'[13{v}]', f'c1cc[{v}]c1'):
+                    cases.append({'text': t})
         return direct_run(ID, cases, check_case)
     if k == 'd3':
         strat = st.fixed_dictionaries({'corrupt': st.integers(0, len(molgen.corpus()) - 1), 'op': st.sampled_from('dirt'),
